@@ -282,6 +282,7 @@ class Interp:
             elem_facts.append(it)
         cur = states
         exits += states  # zero iterations
+        broke = []  # states leaving through `break`: they skip the else clause
         seen = []
         for _ in range(6):
             lc = _Loop()
@@ -293,18 +294,23 @@ class Interp:
                 elem = TOP
                 if isinstance(it, frozenset) and "STR" in it:
                     elem = F("CHAR", "STR", "NOTNONE", "NE")
+                if isinstance(s.iter, ast.Call) and norm(s.iter.func) == "range" and 1 <= len(s.iter.args) <= 2 and not s.iter.keywords:
+                    # range(n): 0 <= i ; range(a, n): a <= i
+                    lo = self.eval(s.iter.args[0], env, ctx) if len(s.iter.args) == 2 else F("NOTNONE", "GE0")
+                    elem = frozenset({"NOTNONE"} | ({x for x in ("GE0", "GE1") if isinstance(lo, frozenset) and x in lo}))
                 self.bind_loop_target(s.target, elem, it, e, s.iter)
                 st.append(e)
             out = self.block(s.body, self.cap(st), ctx)
             ctx.loops.pop()
-            exits += lc.breaks + out + lc.continues
+            broke += lc.breaks
+            exits += out + lc.continues
             nxt = self.cap(out + lc.continues)
             sig = _sig(nxt)
             if sig in seen or not nxt:
                 break
             seen.append(sig)
             cur = nxt
-        return self.cap(self.block(s.orelse, self.cap(exits), ctx) if s.orelse else exits)
+        return self.cap(broke + (self.block(s.orelse, self.cap(exits), ctx) if s.orelse else exits))
 
     def bind_loop_target(self, t, elem, it, env, iter_expr):
         if isinstance(t, ast.Name):
@@ -430,6 +436,22 @@ class Interp:
                             return None
                         e[x] = f | {"NE"}
                 return e
+            # i == 0 / i != 0 / i > 0 / i >= 1 / i < 1 / i <= 0 for an integer known to be >= 0
+            if isinstance(l, ast.Name) and isinstance(r, ast.Constant) and isinstance(r.value, int) and not isinstance(r.value, bool) and r.value in (0, 1):
+                f = facts(l.id)
+                k = r.value
+                zero_when = None
+                if (isinstance(op, ast.Eq) and k == 0) or (isinstance(op, ast.LtE) and k == 0) or (isinstance(op, ast.Lt) and k == 1):
+                    zero_when = True
+                elif (isinstance(op, ast.NotEq) and k == 0) or (isinstance(op, ast.Gt) and k == 0) or (isinstance(op, ast.GtE) and k == 1):
+                    zero_when = False
+                if zero_when is not None and "GE0" in f:
+                    if pol == zero_when:
+                        if "GE1" in f:
+                            return None
+                    else:
+                        e[l.id] = f | {"GE1"}
+                return e
             # x is None / x is not None
             if isinstance(l, ast.Name) and isinstance(r, ast.Constant) and r.value is None and isinstance(op, (ast.Is, ast.IsNot, ast.Eq, ast.NotEq)):
                 f = facts(l.id)
@@ -492,6 +514,12 @@ class Interp:
             r = self.eval_call(e, env, ctx)
             if r is not None:
                 return [(v, env) for v in r] or []
+        if isinstance(e, ast.IfExp):
+            # one disjunct per feasible outcome of the test (x = A if c else None keeps A's facts on its own path)
+            out = []
+            for env2, pol in self.branch(e.test, env, ctx):
+                out += self.eval_multi(e.body if pol else e.orelse, env2, ctx)
+            return out
         return [(self.eval(e, env, ctx), env)]
 
     def return_values(self, e, env, ctx):
@@ -595,16 +623,35 @@ class Interp:
                     return F("NOTNONE", "GE1", "GE0")
                 if "GE0" in a and "GE0" in b:
                     return F("NOTNONE", "GE0")
+            if isinstance(e.op, ast.Sub) and isinstance(a, frozenset) and "GE1" in a and isinstance(e.right, ast.Constant) and e.right.value == 1:
+                return F("NOTNONE", "GE0")
             return F("NOTNONE")
+        if isinstance(e, ast.BoolOp) or (isinstance(e, ast.UnaryOp) and isinstance(e.op, ast.Not)) or (isinstance(e, ast.Compare) and len(e.ops) > 1):
+            # a test used as a value: evaluated with short-circuiting; TRUE / FALSE when only one outcome is feasible
+            pols = {pol for _, pol in self.branch(e, env, ctx)}
+            if isinstance(e, ast.BoolOp):
+                # `a and b` yields one of its operands: a truth value only when the operands are tests themselves
+                boolish = all(isinstance(v, ast.Compare) or (isinstance(v, ast.UnaryOp) and isinstance(v.op, ast.Not)) for v in e.values)
+                if not boolish:
+                    return F("NOTNONE")
+            return F("NOTNONE", "TRUE") if pols == {True} else F("NOTNONE", "FALSE") if pols == {False} else F("NOTNONE")
         if isinstance(e, (ast.Compare, ast.BoolOp, ast.UnaryOp)):
             for x in ast.iter_child_nodes(e):
                 if isinstance(x, ast.expr):
                     self.eval(x, env, ctx)
+            if isinstance(e, ast.Compare) and len(e.ops) == 1:
+                pols1 = {pol for pol in (True, False) if self.refine(e, env, pol) is not None}
+                if len(pols1) == 1:
+                    _tf = F("NOTNONE", "TRUE") if pols1 == {True} else F("NOTNONE", "FALSE")
+                else:
+                    _tf = F("NOTNONE")
+            else:
+                _tf = F("NOTNONE")
             # separator tests `s[0] == ","` only see the separator if s has no leading white space
             if isinstance(e, ast.Compare) and len(e.ops) == 1 and isinstance(e.left, ast.Subscript) and isinstance(e.left.value, ast.Name) and isinstance(e.left.slice, ast.Constant) and e.left.slice.value == 0 and isinstance(e.comparators[0], ast.Constant) and e.comparators[0].value in (",", ":", ";", "="):
                 b = env.get(e.left.value.id, TOP)
                 self.site(ctx, e, "Spacing", F("LS"), b if isinstance(b, frozenset) else TOP)
-            return F("NOTNONE")
+            return _tf
         if isinstance(e, ast.Attribute):
             r = self.eval(e.value, env, ctx)
             # attribute of a value that is None on this path (e.g. the token class of a blank token)
@@ -651,7 +698,8 @@ class Interp:
                 self.site(ctx, c, "ValueError", F("NE", "DEC"), a)
             return [F("NOTNONE")]
         if fname == "len":
-            return [F("NOTNONE")]
+            a = args[0] if args and isinstance(args[0], frozenset) else TOP
+            return [F("NOTNONE", "GE0", "GE1") if "NE" in a else F("NOTNONE", "GE0")]
         if isinstance(f, ast.Attribute):
             recv = self.eval(f.value, env, ctx)
             m = f.attr
@@ -671,6 +719,9 @@ class Interp:
                 return [EMPTY_STR, frozenset({"STR", "NOTNONE", "NE"} | dec)]
             if m in ("replace", "lower", "upper", "format", "join", "isoformat"):
                 return [F("STR", "NOTNONE")]
+            if m == "startswith" and len(c.args) == 1 and isinstance(c.args[0], ast.Constant) and c.args[0].value in (",", ":", ";", "=") and isinstance(f.value, ast.Name):
+                # the other spelling of the separator test `s[0] == ","`
+                self.site(ctx, c, "Spacing", F("LS"), r)
             if m in ("find", "index", "count", "isdigit", "isdecimal", "isalpha", "startswith", "split", "items", "keys", "values", "append", "debug"):
                 return [F("NOTNONE")]
             # dispatch on a token class held in a variable
